@@ -279,6 +279,18 @@ def c12(tier):
             # make every record clean and cold once, then warm again by the command itself
             steps += [x("GC"), op(0, "TYPE", "k"), x("GC"), op(0, *w), x("GC"), x("GC"), x("GC"), x("GC"), x("PROBE")]
             cases.append(("c12-writer-%s-%d-%s" % (be, i, w[0]), be, steps))
+        # deadline changes on a record that carries a deadline and is cold (its only copy sits in storage under (deadline, name))
+        ttlw = [["PERSIST", "k"], ["EXPIRE", "k", "2000"], ["PEXPIRE", "k", "2000000"], ["EXPIREAT", "k", "4102444800"], ["EXPIRE", "k", "2000", "GT"],
+                ["EXPIRE", "k", "500", "LT"], ["EXPIRE", "k", "2000", "XX"], ["SET", "k", "w", "KEEPTTL"], ["APPEND", "k", "x"], ["GETSET", "k", "w"]]
+        for i, w in enumerate(ttlw):
+            for ty, mk in (("str", ["SET", "k", "10", "EX", "1000"]), ("list", None)):
+                if ty == "list" and w[0] in ("SET", "APPEND", "GETSET"):
+                    continue
+                steps = [op(0, "SET", "o", "other")]
+                steps += [op(0, *mk)] if mk else [op(0, "RPUSH", "k", "a", "b"), op(0, "EXPIRE", "k", "1000")]
+                steps += [x("GC"), x("GC"), x("GC"), x("GC"), op(0, *w), x("PROBE"), x("GC"), x("GC"), x("GC"), x("GC"), x("PROBE"),
+                          op(0, "EXISTS", "k"), op(0, "TYPE", "k")]   # no TTL reply: the two runs compared by the judge are made at different times
+                cases.append(("c12-cold-ttl-%s-%d-%s-%s" % (be, i, w[0], ty), be, steps))
     return cases
 
 
@@ -321,6 +333,24 @@ def c09(tier):
              op(2, "WATCH", "k"), op(4, "WATCH", "k"), op(1, "SET", "k", "2"),
              op(3, "MULTI"), op(3, "GET", "k"), op(3, "EXEC"), op(2, "MULTI"), op(2, "GET", "k"), op(2, "EXEC"), op(4, "MULTI"), op(4, "GET", "k"), op(4, "EXEC")]
     cases.append(("c09-rewatch", "mem", steps))
+    # a writer that removes the LAST element (the key disappears with it) inside the watch window
+    last = [("list", [["RPUSH", "k", "a"]], ["LPOP", "k"]), ("list", [["RPUSH", "k", "a"]], ["RPOP", "k"]),
+            ("list", [["RPUSH", "k", "a"]], ["LREM", "k", "0", "a"]), ("list", [["RPUSH", "k", "a"]], ["RPOPLPUSH", "k", "o2"]),
+            ("list", [["RPUSH", "k", "a"]], ["LPOPRPUSH", "k", "o2"]), ("list", [["RPUSH", "k", "a", "b"]], ["LPOP", "k", "2"]),
+            ("set", [["SADD", "k", "a"]], ["SREM", "k", "a"]), ("set", [["SADD", "k", "a"]], ["SPOP", "k"]), ("set", [["SADD", "k", "a"]], ["SMOVE", "k", "o3", "a"]),
+            ("hash", [["HSET", "k", "f", "1"]], ["HDEL", "k", "f"]), ("zset", [["ZADD", "k", "1", "a"]], ["ZREM", "k", "a"]),
+            ("zset", [["ZADD", "k", "1", "a"]], ["ZREMRANGEBYRANK", "k", "0", "0"]), ("zset", [["ZADD", "k", "1", "a"]], ["ZREMRANGEBYSCORE", "k", "0", "5"])]
+    for i, (ty, setup, w) in enumerate(last):
+        steps = list(pre) + [op(1, *c) for c in setup]
+        steps += [op(0, "WATCH", "k"), op(1, *w), op(1, "EXISTS", "k"), op(0, "MULTI"), op(0, "SET", "done", "1"), op(0, "EXEC"), op(0, "GET", "done")]
+        cases.append(("c09-last-element-%d-%s" % (i, w[0]), "mem", steps))
+    # WATCH of a key that is already watched (and already changed) must not forget the change
+    for i, again in enumerate((["WATCH", "k"], ["WATCH", "k", "j"], ["WATCH", "j", "k"], ["WATCH", "k", "k"])):
+        steps = [op(1, "SET", "k", "0"), op(1, "SET", "j", "0"), op(0, "WATCH", "k"), op(1, "SET", "k", "1"), op(0, *again),
+                 op(0, "MULTI"), op(0, "SET", "done", "1"), op(0, "EXEC"), op(0, "GET", "done")]
+        cases.append(("c09-watch-again-%d" % i, "mem", steps))
+    steps = [op(1, "SET", "k", "0"), op(0, "WATCH", "k", "k"), op(1, "SET", "k", "1"), op(0, "MULTI"), op(0, "SET", "done", "1"), op(0, "EXEC"), op(0, "GET", "done")]
+    cases.append(("c09-watch-twice-in-one", "mem", steps))
     return cases
 
 
